@@ -24,8 +24,8 @@ CLAIMED = {
    'Recorded traces of the real endpoints (all five interaction models, either initiator, fragment sizes none/64/65/67/100/1000, TCP framing with adversarial read chunking and message framing, gated sender, scripted and library publishers) are validated by TLC against RSocket.tla: every delivery must be the next undelivered payload of its own stream and direction, byte-for-byte (payload ids are resolved from the delivered bytes), responses correlate with their requests, and at quiescence everything handed has been delivered exactly once.',
    CONN_NOTE, 'DESIGN 6/C01', 'conn'),
  'C05': ('model_checking',
-   'TLC trace validation of recorded executions of the real endpoints against RSocket.tla (+ design-level TLC model checking of the same monitors)',
-   "Per-stream FIFO and fragment contiguity are clauses of the send-queue model in RSocket.tla (OnEnq/OnTx): every frame on the wire must be the next fragment of the oldest queued frame of its stream, and what the peer's transport decodes must equal what was sent. Families hold the sender's gate closed while several fragmented and unfragmented frames are queued on the same and on different streams.",
+   'TLC model checking of Mux.tla (send queue + reassembly cache; safety and liveness) with every transition of its state graph replayed on the real sender code; TLC trace validation of recorded executions of the real endpoints against RSocket.tla',
+   "Mux.tla models send_frame / send_priority_frame / _get_next_frame_to_send / _cycle_send_queue and the peer's FrameFragmentCache, one action per critical section; TLC checks per-stream wire order, exact reassembly, in-order single delivery, SETUP first and eventual drain over every interleaving, refutes the pre-fix 'naive' rotation as a control, and the complete state graph (41,833 transitions) is replayed step by step on a real RSocketClient queue and cache comparing written fragment, queue order and reassembled frames. Per-stream FIFO and fragment contiguity are clauses of the send-queue model in RSocket.tla (OnEnq/OnTx): every frame on the wire must be the next fragment of the oldest queued frame of its stream, and what the peer's transport decodes must equal what was sent. Families hold the sender's gate closed while several fragmented and unfragmented frames are queued on the same and on different streams.",
    CONN_NOTE, 'DESIGN 6/C05', 'conn'),
  'C06': ('model_checking',
    'TLC trace validation of recorded executions of the real endpoints against RSocket.tla (+ design-level TLC model checking of the same monitors)',
